@@ -408,6 +408,13 @@ def r_same_distinct(ctx):
             L = loop(0, d1)
             w = elem(L)
             spec = [((L,), (app("in", w, d2),), rel(("idx", d1, w), ("idx", d2, w)))]
+            if cname == "SameWorkers":
+                # 'both selections select the same worker(s)' (docs/resource_constraints.md, class docstring): equal flags for the
+                # workers both offer, and a worker that only one of the two offers cannot be selected on that side
+                L2 = loop(1, d2)
+                w2 = elem(L2)
+                spec += [((L,), (app("not", app("in", w, d2)),), Not(("idx", d1, w))),
+                         ((L2,), (app("not", app("in", w2, d1)),), Not(("idx", d2, w2)))]
             compare_groups(ctx, "R-RC-RELATION", where, location, emission_items(own), spec, f"[{describe_config(run)}]")
 
 
